@@ -342,6 +342,10 @@ func writeOverlayFiles(dir string) (string, error) {
 		if err := os.WriteFile(real, data, 0o644); err != nil {
 			return "", err
 		}
+		if strings.HasPrefix(virt, "/repo/service/zz_verif_") && filepath.Base(virt) != "zz_verif_rt.go" {
+			// native replay: the harness's own clock reads come from the script as well
+			os.WriteFile(real, []byte(strings.ReplaceAll(string(data), "time.Now()", "vrtNow()")), 0o644)
+		}
 		repl[virt] = real
 		if filepath.Base(virt) == "zz_verif_rt.go" {
 			// add the replay test next to it
@@ -506,9 +510,6 @@ func clockOverlay(gen string) (map[string]string, error) {
 		data, err := os.ReadFile(f)
 		if err != nil {
 			return nil, err
-		}
-		if _, err := os.Stat(filepath.Join(harnessRoot(), "service", "zz_verif_clock.go")); err != nil {
-			continue
 		}
 		s := strings.ReplaceAll(string(data), "time.Now()", "vrtNow()")
 		real := filepath.Join(gen, "clock_"+filepath.Base(f))
